@@ -1,11 +1,14 @@
-(* C04 - the machine lock (cmd/airgapped + Machine.DropSensitiveData): an operator command holds
-   the lock from its start to its end, entering the password first when it has been dropped; the
-   password-expiry tick takes the same lock before it clears the password.  Definitions only. *)
+(* C04 - the machine lock (cmd/airgapped/main.go run() + Machine.DropSensitiveData).  For every
+   command the prompt (1) takes the lock, asks for the password if it has been dropped, releases the
+   lock (enterEncryptionPasswordIfNeeded); (2) takes the lock AGAIN, runs the command handler, releases
+   it (terExe).  The password-expiry tick takes the same lock before it clears the password.
+   Definitions only. *)
 From Coq Require Import List Bool.
 Import ListNotations.
 
 Inductive owner := Free | ByCmd | ByTick.
-Inductive cpc := C0 | C1 | C2 | C3.   (* acquire; ensure password; save keyring; release *)
+Inductive cpc := C0 | C1 | C2 | C3 | C4 | C5.
+  (* C0 acquire; C1 ensure password; C2 release;   C3 acquire; C4 save keyring; C5 release *)
 Inductive tpc := T0 | T1 | T2.        (* acquire; drop; release *)
 
 Record lstate := { lk : owner; enc : bool (* password present *);
@@ -23,8 +26,13 @@ Definition lstep (s : lstate) (who : bool) : lstate :=
             | _ => s
             end
     | C1 => {| lk := lk s; enc := true; cmd := C2; tick := tick s; saved := saved s |}
-    | C2 => {| lk := lk s; enc := enc s; cmd := C3; tick := tick s; saved := saved s ++ [enc s] |}
-    | C3 => {| lk := Free; enc := enc s; cmd := C0; tick := tick s; saved := saved s |}
+    | C2 => {| lk := Free; enc := enc s; cmd := C3; tick := tick s; saved := saved s |}
+    | C3 => match lk s with
+            | Free => {| lk := ByCmd; enc := enc s; cmd := C4; tick := tick s; saved := saved s |}
+            | _ => s
+            end
+    | C4 => {| lk := lk s; enc := enc s; cmd := C5; tick := tick s; saved := saved s ++ [enc s] |}
+    | C5 => {| lk := Free; enc := enc s; cmd := C0; tick := tick s; saved := saved s |}
     end
   else
     match tick s with
@@ -36,9 +44,22 @@ Definition lstep (s : lstate) (who : bool) : lstate :=
     | T2 => {| lk := Free; enc := enc s; cmd := cmd s; tick := T0; saved := saved s |}
     end.
 
-Definition lrun (sched : list bool) : lstate := fold_left lstep sched linit.
+Definition lrun_from (s : lstate) (sched : list bool) : lstate := fold_left lstep sched s.
+Definition lrun (sched : list bool) : lstate := lrun_from linit sched.
 
 (* observable on the implementation: a tick that fires while a command holds the lock waits *)
 Definition tick_waits_during_command : bool :=
-  let s := lstep linit true in                    (* the command has started *)
+  let s := lrun [true; true; true; true] in       (* the command is inside its handler section *)
   match tick (lstep s false) with T0 => true | _ => false end.
+
+(* the schedule in which the tick falls between the password check and the command *)
+Definition gap_schedule : list bool := [true; true; true; false; false; false; true; true].
+Definition gap_saves_without_password : bool :=
+  match saved (lrun gap_schedule) with [false] => true | _ => false end.
+
+(* a schedule in which the tick takes no step while the command is between its two sections *)
+Fixpoint gapless_from (s : lstate) (sched : list bool) : bool :=
+  match sched with
+  | [] => true
+  | who :: r => (who || negb (match cmd s with C3 => true | _ => false end)) && gapless_from (lstep s who) r
+  end.
